@@ -80,3 +80,17 @@ package p2p
 //@   loop 1 iterensures[packet] len(packets) >= 1 && packets[len(packets) - 1].Eof == (i == len(chunks) - 1) && packets[len(packets) - 1].Bytes == chunk && packets[len(packets) - 1].StreamId == topic
 //@   loop 1 invariant[count] len(packets) == iter && len(packets) <= len(chunks)
 //@   callsite queueSends requires[all] len(packets) == len(chunks)
+
+// ---- C17: the handshake ----------------------------------------------------------------------------------------
+// every connection gets its own ephemeral key (generated in this very call - a key shared between connections would
+// let a recorded handshake and its frames be replayed), and the connection is handed out only after the peer's
+// signature over THIS connection's challenge verified under the key it presented, its metadata verified under the
+// same key, and network and chain ids match
+//@ func lib/crypto.NewEd25519PrivateKey
+//@   trusted
+//@   pure
+//@   ensures !isnil(result0) && fresh(result0)
+//@ func NewHandshake
+//@   callsite SharedSecret requires[ephemeral] !isnil(tempPrivateKey) && fresh(tempPrivateKey)
+//@   callsite PeerMeta).Copy requires[identified] !isnil(peerPublicKey) && keyBytes(peerPublicKey) == bytes(peerSig.PublicKey) && sigVerifies(keyBytes(peerPublicKey), bytes(challenge[0:32]), bytes(peerSig.Signature))
+//@   ensures[compatible] isnil(e) ==> encryptedConn != nil && encryptedConn.Address != nil && encryptedConn.Address.PeerMeta != nil && encryptedConn.Address.PeerMeta.NetworkId == meta.NetworkId && encryptedConn.Address.PeerMeta.ChainId == meta.ChainId
